@@ -241,10 +241,19 @@ class SymH:
     def note(self, s):
         self.notes.append(s)
 
-    def policy(self, gather=None, sort=None, search=None, nonlinear=None, fold=None):
+    def policy(self, gather=None, sort=None, search=None, nonlinear=None, fold=None, mult_cap=None):
         self.np.set_policy(gather=gather, sort=sort, search=search, fold=fold)
+        if mult_cap is not None:
+            self.np.random.MULT_CAP[0] = mult_cap
         if nonlinear is not None:
             self.ex.defer_nonlinear = nonlinear == "defer"
+
+    def rng(self):
+        """a Generator whose every draw is a fresh symbol under the documented contract"""
+        return self.np.random.Generator()
+
+    def rng_log(self):
+        return list(self.ex.rng_log)
 
     def track_int64(self, on=True):
         self.ex.track_int64 = on
@@ -430,6 +439,12 @@ class ConcH:
     def policy(self, **kw):
         pass
 
+    def rng(self):
+        return self.tape
+
+    def rng_log(self):
+        return []
+
     def track_int64(self, on=True):
         pass
 
@@ -448,6 +463,105 @@ class ConcH:
     def fail(self, name, why=""):
         self.checked.append(name)
         self.failed.append(name)
+
+
+class Tape:
+    """concrete replay of RNG stubs: feeds the witness values back in call order (same fresh-name scheme as
+    symx.nprandom: '<fn>!<k>'), defaulting to a contract-respecting value when the witness has none."""
+
+    def __init__(self, witness):
+        self.w = witness
+        self.n = {}
+
+    def _next(self, tag, default):
+        k = self.n.get(tag, 0)
+        self.n[tag] = k + 1
+        v = self.w.get(f"rng!{tag}!{k}", default)
+        return v
+
+    def binomial(self, n, p, size=None):
+        import numpy as np
+
+        def one():
+            v = int(self._next("binomial", 0))
+            return max(0, min(int(n), v))
+
+        if size is None:
+            return one()
+        return np.array([one() for _ in range(int(np.prod(size)))], dtype=int).reshape(size)
+
+    def poisson(self, lam=1.0, size=None):
+        import numpy as np
+
+        one = lambda: max(0, int(self._next("poisson", 0)))
+        if size is None:
+            return one()
+        return np.array([one() for _ in range(int(np.prod(size)))], dtype=int).reshape(size)
+
+    def choice(self, a, size=None, replace=True, p=None, **kw):
+        import numpy as np
+
+        pop = None if isinstance(a, (int, np.integer)) else np.asarray(a)
+        n = int(a) if pop is None else len(pop)
+        k = 1 if size is None else int(np.prod(size))
+        if n == 0 and k > 0:
+            raise ValueError("a cannot be empty unless no samples are taken")
+        if not replace and k > n:
+            raise ValueError("Cannot take a larger sample than population when 'replace=False'")
+        idx = []
+        for _ in range(k):
+            v = max(0, min(n - 1, int(self._next("choice", 0))))
+            if not replace:
+                while v in idx:
+                    v = (v + 1) % n
+            idx.append(v)
+        idx = np.array(idx, dtype=int)
+        out = idx if pop is None else pop[idx]
+        if size is None:
+            return out[0]
+        return out.reshape(size)
+
+    def normal(self, loc=0.0, scale=1.0, size=None):
+        import numpy as np
+
+        one = lambda: float(Fraction(self._next("normal", 0)))
+        if size is None:
+            return one()
+        return np.array([one() for _ in range(int(np.prod(size)))], dtype=float).reshape(size)
+
+    def shuffle(self, x, axis=0):
+        n = len(x)
+        pos = []
+        for j in range(n):
+            v = max(0, min(n - 1, int(self._next("shuffle", j))))
+            while v in pos:
+                v = (v + 1) % n
+            pos.append(v)
+        old = x.copy()
+        for j in range(n):
+            x[j] = old[pos[j]]
+
+    def patch(self):
+        """context manager patching numpy.random's legacy functions"""
+        import contextlib
+
+        import numpy as np
+
+        tape = self
+
+        @contextlib.contextmanager
+        def cm():
+            names = ("binomial", "poisson", "choice", "normal", "shuffle")
+            saved = {k: getattr(np.random, k) for k in names}
+            try:
+                for k in names:
+                    setattr(np.random, k, getattr(tape, k))
+                yield
+            finally:
+                for k, v in saved.items():
+                    setattr(np.random, k, v)
+
+        return cm()
 
 
 # ----------------------------------------------------------------------------------------------------
@@ -478,12 +592,13 @@ def real_sa():
 def replay(run, params, witness, tol=1e-9):
     """Run the harness concretely against the real code. -> dict(status, failed, exc)"""
     h = ConcH(real_sa(), witness, tol)
+    h.tape = Tape(witness)
     try:
         with warnings.catch_warnings():
             warnings.simplefilter("ignore")
             import numpy as np
 
-            with np.errstate(all="ignore"):
+            with np.errstate(all="ignore"), h.tape.patch():
                 run(h, **params)
     except AssumptionFailed as e:
         return {"status": "outside-assumptions", "failed": [], "exc": str(e)}
@@ -661,6 +776,7 @@ class Runner:
             from . import np as snp
 
             snp.set_policy(gather="ite", sort="ite", search="auto", fold=False)
+            snp.random.MULT_CAP[0] = None
             runner.ex.defer_nonlinear = False
             snp.declare_float_atoms([])
             h = SymH(runner)
